@@ -11,9 +11,19 @@ Shape of the statements (see the translation rules in the header of Generated/Le
   structure and is applied through `nilOr` at its call sites, so the tie is `Generated.f = nilOr Model.f`;
 * Go `int` results are `Int` in the generated code; where the model uses `Nat` the tie casts the model side;
 * `wrappingCounter.inc` assigns `c.value`: the generated function returns (final `c.value`, result).
+* the model stores a Go `uint8` as a `Nat`; where a function inspects the BITS of such a field (the tag switch of
+  `calcDescriptorLength`) the tie is stated for values in the range of the Go type (`d.tag < 256`), and so are the
+  ties of the functions that call it on the elements of a list (`calcDescriptorsLength`, `calcPMTSectionLength`).
+
+The proofs avoid following the shape of the generated code (which a behaviour-preserving refactoring of /repo
+changes): accumulations are normalised by `simp only` with the model's definitions and closed by `len_arith`
+(`omega` after pushing casts inwards), loops go through `foldl_add_*` whatever the loop body looks like, helper
+functions that the Go code calls are inlined by the translator (a beta-redex that `simp only` reduces), and the tag
+switch is checked tag by tag for all 256 tags.
 -/
 import Astits.Generated.Lengths
 import Astits.Model.Mux
+import Astits.Props.TieTactics
 
 set_option linter.unusedSimpArgs false
 
@@ -64,6 +74,17 @@ theorem foldl_add_mod {α} (m : Nat) (f : Nat → α → Nat) (g : α → Nat)
     simp only [List.foldl_cons, List.map_cons, List.sum_cons, h]
     rw [ih _ (Nat.mod_lt _ hm), Nat.mod_add_mod, Nat.add_assoc]
 
+/-- the same when the step is only known for the elements of the list -/
+theorem foldl_add_mod_mem {α} (m : Nat) (f : Nat → α → Nat) (g : α → Nat) (xs : List α)
+    (h : ∀ acc, ∀ a ∈ xs, f acc a = (acc + g a) % m) (init : Nat) (hi : init < m) :
+    xs.foldl f init = (init + (xs.map g).sum) % m := by
+  induction xs generalizing init with
+  | nil => simp [Nat.mod_eq_of_lt hi]
+  | cons a r ih =>
+    have hm : 0 < m := by omega
+    simp only [List.foldl_cons, List.map_cons, List.sum_cons, h init a (List.mem_cons_self ..)]
+    rw [ih (fun acc x hx => h acc x (List.mem_cons_of_mem _ hx)) _ (Nat.mod_lt _ hm), Nat.mod_add_mod, Nat.add_assoc]
+
 /-- the arithmetic normal form: push `Nat → Int` casts to the leaves, so that `omega` sees the same
 `if` atoms on both sides -/
 macro "push_casts" : tactic =>
@@ -76,9 +97,33 @@ macro "push_casts" : tactic =>
 macro "nat_arith" : tactic =>
   `(tactic| (apply Int.natCast_inj.mp; push_casts <;> omega))
 
+macro "len_arith_core" : tactic =>
+  `(tactic| first
+    | omega
+    | (push_casts <;> omega)
+    | nat_arith)
+
+/-- close `lhs = rhs` between Nat / Int terms built from `+`, `*` by literals, `% 2^N`, `Int.toNat`, casts and `if`,
+however the sums are associated, whatever order the terms come in and however the `if`s on the flags are nested
+(`Tie.bool_cond` lets `omega` relate different `if`s on the same flag) -/
+macro "len_arith" : tactic =>
+  `(tactic| first
+    | rfl
+    | len_arith_core
+    | (simp only [Astits.Tie.bool_cond] <;> len_arith_core)
+    | (simp <;> len_arith_core)
+    | (simp <;> simp only [Astits.Tie.bool_cond] <;> len_arith_core))
+
+/-- a side condition `init < 2^N` of `foldl_add_mod` -/
+macro "init_lt" : tactic =>
+  `(tactic| first
+    | exact Nat.mod_lt _ (by decide)
+    | decide
+    | omega)
+
 end GeneratedLengths
 
-open Astits.Generated GeneratedLengths
+open Astits.Generated GeneratedLengths Astits.Tie
 
 /-! ## C14 — descriptor lengths (descriptor.go) -/
 namespace C14
@@ -97,7 +142,7 @@ theorem generated_calcDescriptorAC3Length :
   | none => rfl
   | some d =>
     simp only [Lengths.calcDescriptorAC3Length, nilOr, calcDescriptorAC3Length, b2n, ite_add_int]
-    nat_arith
+    len_arith
 
 theorem generated_calcDescriptorAVCVideoLength :
     Lengths.calcDescriptorAVCVideoLength = nilOr calcDescriptorAVCVideoLength := by
@@ -107,13 +152,13 @@ theorem generated_calcDescriptorComponentLength :
     Lengths.calcDescriptorComponentLength = nilOr calcDescriptorComponentLength := by
   funext d; cases d with
   | none => rfl
-  | some d => simp only [Lengths.calcDescriptorComponentLength, nilOr, calcDescriptorComponentLength]; omega
+  | some d => simp only [Lengths.calcDescriptorComponentLength, nilOr, calcDescriptorComponentLength]; len_arith
 
 theorem generated_calcDescriptorContentLength :
     Lengths.calcDescriptorContentLength = nilOr calcDescriptorContentLength := by
   funext d; cases d with
   | none => rfl
-  | some d => simp only [Lengths.calcDescriptorContentLength, nilOr, calcDescriptorContentLength]; omega
+  | some d => simp only [Lengths.calcDescriptorContentLength, nilOr, calcDescriptorContentLength]; len_arith
 
 theorem generated_calcDescriptorDataStreamAlignmentLength :
     Lengths.calcDescriptorDataStreamAlignmentLength = nilOr calcDescriptorDataStreamAlignmentLength := by
@@ -125,7 +170,7 @@ theorem generated_calcDescriptorEnhancedAC3Length :
   | none => rfl
   | some d =>
     simp only [Lengths.calcDescriptorEnhancedAC3Length, nilOr, calcDescriptorEnhancedAC3Length, b2n, ite_add_int]
-    nat_arith
+    len_arith
 
 theorem extendedEventItemsSize_eq_sum (xs : List DescriptorExtendedEventItem) :
     extendedEventItemsSize xs = (xs.map fun item => 1 + item.description.length + 1 + item.content.length).sum := by
@@ -172,7 +217,7 @@ theorem generated_calcDescriptorExtensionLength :
     simp only [Lengths.calcDescriptorExtensionLength, nilOr, calcDescriptorExtensionLength,
       generated_calcDescriptorExtensionSupplementaryAudioLength, descriptorTagExtensionSupplementaryAudio]
     by_cases ht : d.tag = 6
-    · simp only [ht, if_true]; omega
+    · simp only [ht, if_true]; len_arith
     · simp only [ht, if_false]; cases d.unknown <;> simp only [nilOr] <;> omega
 
 theorem generated_calcDescriptorISO639LanguageAndAudioTypeLength :
@@ -183,7 +228,7 @@ theorem generated_calcDescriptorLocalTimeOffsetLength :
     Lengths.calcDescriptorLocalTimeOffsetLength = nilOr calcDescriptorLocalTimeOffsetLength := by
   funext d; cases d with
   | none => rfl
-  | some d => simp only [Lengths.calcDescriptorLocalTimeOffsetLength, nilOr, calcDescriptorLocalTimeOffsetLength]; omega
+  | some d => simp only [Lengths.calcDescriptorLocalTimeOffsetLength, nilOr, calcDescriptorLocalTimeOffsetLength]; len_arith
 
 theorem generated_calcDescriptorMaximumBitrateLength :
     Lengths.calcDescriptorMaximumBitrateLength = nilOr calcDescriptorMaximumBitrateLength := by
@@ -193,13 +238,13 @@ theorem generated_calcDescriptorNetworkNameLength :
     Lengths.calcDescriptorNetworkNameLength = nilOr calcDescriptorNetworkNameLength := by
   funext d; cases d with
   | none => rfl
-  | some d => simp only [Lengths.calcDescriptorNetworkNameLength, nilOr, calcDescriptorNetworkNameLength]; omega
+  | some d => simp only [Lengths.calcDescriptorNetworkNameLength, nilOr, calcDescriptorNetworkNameLength]; len_arith
 
 theorem generated_calcDescriptorParentalRatingLength :
     Lengths.calcDescriptorParentalRatingLength = nilOr calcDescriptorParentalRatingLength := by
   funext d; cases d with
   | none => rfl
-  | some d => simp only [Lengths.calcDescriptorParentalRatingLength, nilOr, calcDescriptorParentalRatingLength]; omega
+  | some d => simp only [Lengths.calcDescriptorParentalRatingLength, nilOr, calcDescriptorParentalRatingLength]; len_arith
 
 theorem generated_calcDescriptorPrivateDataIndicatorLength :
     Lengths.calcDescriptorPrivateDataIndicatorLength = nilOr calcDescriptorPrivateDataIndicatorLength := by
@@ -213,19 +258,19 @@ theorem generated_calcDescriptorRegistrationLength :
     Lengths.calcDescriptorRegistrationLength = nilOr calcDescriptorRegistrationLength := by
   funext d; cases d with
   | none => rfl
-  | some d => simp only [Lengths.calcDescriptorRegistrationLength, nilOr, calcDescriptorRegistrationLength]; omega
+  | some d => simp only [Lengths.calcDescriptorRegistrationLength, nilOr, calcDescriptorRegistrationLength]; len_arith
 
 theorem generated_calcDescriptorServiceLength :
     Lengths.calcDescriptorServiceLength = nilOr calcDescriptorServiceLength := by
   funext d; cases d with
   | none => rfl
-  | some d => simp only [Lengths.calcDescriptorServiceLength, nilOr, calcDescriptorServiceLength]; omega
+  | some d => simp only [Lengths.calcDescriptorServiceLength, nilOr, calcDescriptorServiceLength]; len_arith
 
 theorem generated_calcDescriptorShortEventLength :
     Lengths.calcDescriptorShortEventLength = nilOr calcDescriptorShortEventLength := by
   funext d; cases d with
   | none => rfl
-  | some d => simp only [Lengths.calcDescriptorShortEventLength, nilOr, calcDescriptorShortEventLength]; omega
+  | some d => simp only [Lengths.calcDescriptorShortEventLength, nilOr, calcDescriptorShortEventLength]; len_arith
 
 theorem generated_calcDescriptorStreamIdentifierLength :
     Lengths.calcDescriptorStreamIdentifierLength = nilOr calcDescriptorStreamIdentifierLength := by
@@ -235,13 +280,13 @@ theorem generated_calcDescriptorSubtitlingLength :
     Lengths.calcDescriptorSubtitlingLength = nilOr calcDescriptorSubtitlingLength := by
   funext d; cases d with
   | none => rfl
-  | some d => simp only [Lengths.calcDescriptorSubtitlingLength, nilOr, calcDescriptorSubtitlingLength]; omega
+  | some d => simp only [Lengths.calcDescriptorSubtitlingLength, nilOr, calcDescriptorSubtitlingLength]; len_arith
 
 theorem generated_calcDescriptorTeletextLength :
     Lengths.calcDescriptorTeletextLength = nilOr calcDescriptorTeletextLength := by
   funext d; cases d with
   | none => rfl
-  | some d => simp only [Lengths.calcDescriptorTeletextLength, nilOr, calcDescriptorTeletextLength]; omega
+  | some d => simp only [Lengths.calcDescriptorTeletextLength, nilOr, calcDescriptorTeletextLength]; len_arith
 
 theorem vbiDataServicesSize_eq_sum (xs : List DescriptorVBIDataService) :
     vbiDataServicesSize xs
@@ -259,19 +304,23 @@ theorem generated_calcDescriptorVBIDataLength :
     rw [foldl_add_int _ (fun s => 2 + (if isKnownVBIDataServiceID s.dataServiceID then s.descriptors.length else 1))
       (by
         intro acc a
-        simp only [isKnownVBIDataServiceID, Bool.or_eq_true, decide_eq_true_eq]
-        split <;> omega)]
-    omega
+        simp [isKnownVBIDataServiceID]
+        len_arith)]
+    len_arith
 
 theorem generated_calcDescriptorUnknownLength :
     Lengths.calcDescriptorUnknownLength = nilOr calcDescriptorUnknownLength := by
   funext d; cases d with
   | none => rfl
-  | some d => simp only [Lengths.calcDescriptorUnknownLength, nilOr, calcDescriptorUnknownLength]; omega
+  | some d => simp only [Lengths.calcDescriptorUnknownLength, nilOr, calcDescriptorUnknownLength]; len_arith
 
-/-- the tag switch -/
-theorem generated_calcDescriptorLength : Lengths.calcDescriptorLength = calcDescriptorLength := by
-  funext d
+set_option maxRecDepth 4000 in
+/-- the tag switch, for every tag a `uint8` can hold: after rewriting the per-kind calculators with the ties above
+the two sides are `if` chains over the tag; they are compared tag by tag (256 goals, each closed by evaluating the
+conditions on the literal tag), so the way the conditions are written (`>= 0x80 && <= 0xfe`, a bit test, a switch
+with other case orders, …) does not matter -/
+theorem generated_calcDescriptorLength (d : Descriptor) (h : d.tag < 256) :
+    Lengths.calcDescriptorLength d = calcDescriptorLength d := by
   simp only [Lengths.calcDescriptorLength, calcDescriptorLength,
     generated_calcDescriptorUserDefinedLength, generated_calcDescriptorAC3Length,
     generated_calcDescriptorAVCVideoLength, generated_calcDescriptorComponentLength,
@@ -284,17 +333,12 @@ theorem generated_calcDescriptorLength : Lengths.calcDescriptorLength = calcDesc
     generated_calcDescriptorRegistrationLength, generated_calcDescriptorServiceLength,
     generated_calcDescriptorShortEventLength, generated_calcDescriptorStreamIdentifierLength,
     generated_calcDescriptorSubtitlingLength, generated_calcDescriptorTeletextLength,
-    generated_calcDescriptorVBIDataLength, generated_calcDescriptorUnknownLength,
-    isUserDefinedTag, Bool.and_eq_true, decide_eq_true_eq, ge_iff_le,
-    descriptorTagAC3, descriptorTagAVCVideo, descriptorTagComponent, descriptorTagContent,
-    descriptorTagDataStreamAlignment, descriptorTagEnhancedAC3, descriptorTagExtendedEvent, descriptorTagExtension,
-    descriptorTagISO639LanguageAndAudioType, descriptorTagLocalTimeOffset, descriptorTagMaximumBitrate,
-    descriptorTagNetworkName, descriptorTagParentalRating, descriptorTagPrivateDataIndicator,
-    descriptorTagPrivateDataSpecifier, descriptorTagRegistration, descriptorTagService, descriptorTagShortEvent,
-    descriptorTagStreamIdentifier, descriptorTagSubtitling, descriptorTagTeletext, descriptorTagVBIData,
-    descriptorTagVBITeletext]
-  -- what is left differs only in the `Decidable` instances (`d.tag = descriptorTagAC3` vs `d.tag = 106`)
-  rfl
+    generated_calcDescriptorVBIDataLength, generated_calcDescriptorUnknownLength]
+  generalize d.tag = t at h ⊢
+  revert t
+  iterate 256 (refine forall_lt_succ ?_ ?_)
+  · exact forall_lt_zero
+  all_goals rfl
 
 theorem descriptorsSize_eq_sum (ds : List Descriptor) :
     descriptorsSize ds = (ds.map fun d => 2 + calcDescriptorLength d).sum := by
@@ -302,12 +346,15 @@ theorem descriptorsSize_eq_sum (ds : List Descriptor) :
   | nil => rfl
   | cons a r ih => simp only [descriptorsSize, List.map_cons, List.sum_cons, ih]
 
-theorem generated_calcDescriptorsLength : Lengths.calcDescriptorsLength = calcDescriptorsLength := by
-  funext ds
-  simp only [Lengths.calcDescriptorsLength, calcDescriptorsLength, generated_calcDescriptorLength,
-    descriptorsSize_eq_sum]
-  rw [foldl_add_mod 65536 _ (fun d => 2 + calcDescriptorLength d) (by intro acc a; omega) _ _ (by decide)]
-  omega
+/-- tags in the range of the Go type -/
+def TagsOk (ds : List Descriptor) : Prop := ∀ d ∈ ds, d.tag < 256
+
+theorem generated_calcDescriptorsLength (ds : List Descriptor) (h : TagsOk ds) :
+    Lengths.calcDescriptorsLength ds = calcDescriptorsLength ds := by
+  simp only [Lengths.calcDescriptorsLength, calcDescriptorsLength, descriptorsSize_eq_sum]
+  rw [foldl_add_mod_mem 65536 _ (fun d => 2 + calcDescriptorLength d) ds
+    (by intro acc a ha; simp only [generated_calcDescriptorLength a (h a ha)]; len_arith) _ (by init_lt)]
+  len_arith
 
 end C14
 
@@ -333,7 +380,7 @@ theorem generated_calcPacketAdaptationFieldSize : Lengths.calcPacketAdaptationFi
     all_goals omega
   push_casts
   rw [Int.emod_eq_of_lt (by omega) (by omega)]
-  omega
+  len_arith
 
 theorem generated_calcPacketAdaptationFieldLength : Lengths.calcPacketAdaptationFieldLength = calcAFLength := by
   funext a
@@ -354,9 +401,10 @@ theorem generated_calcPESOptionalHeaderDataLength :
     by_cases h3 : h.ptsDTSIndicator = 3 <;> by_cases hX : h.hasExtension2 = true
   all_goals
     simp only [hE, h2, h3, hX, if_true, if_false, Bool.false_eq_true, reduceIte, Nat.reduceEqDiff, ite_add_u8,
-      mod_lt_256, zero_lt_256, ite_lt_256, toNat_cast_mod_256]
+      ite_add_int, mod_lt_256, zero_lt_256, ite_lt_256, Nat.reduceLT, toNat_cast_mod_256, Bool.not_eq_true,
+      not_true_eq_false, not_false_eq_true]
     try simp only [Nat.mod_add_mod, Nat.add_mod_mod, Nat.mod_mod]
-    omega
+    len_arith_core
 
 theorem generated_calcPESOptionalHeaderLength :
     Lengths.calcPESOptionalHeaderLength = calcPESOptionalHeaderLength := by
@@ -372,14 +420,15 @@ namespace C13
 
 theorem generated_calcPATSectionLength : Lengths.calcPATSectionLength = calcPATSectionLength := by
   funext d
-  simp only [Lengths.calcPATSectionLength, calcPATSectionLength]; omega
+  simp only [Lengths.calcPATSectionLength, calcPATSectionLength]; len_arith
 
-theorem generated_calcPMTSectionLength : Lengths.calcPMTSectionLength = calcPMTSectionLength := by
-  funext d
-  simp only [Lengths.calcPMTSectionLength, calcPMTSectionLength, C14.generated_calcDescriptorsLength]
-  rw [foldl_add_mod 65536 _ (fun es => 5 + calcDescriptorsLength es.elementaryStreamDescriptors)
-    (by intro acc a; omega) _ _ (Nat.mod_lt _ (by decide))]
-  omega
+theorem generated_calcPMTSectionLength (d : PMTData) (hp : C14.TagsOk d.programDescriptors)
+    (he : ∀ es ∈ d.elementaryStreams, C14.TagsOk es.elementaryStreamDescriptors) :
+    Lengths.calcPMTSectionLength d = calcPMTSectionLength d := by
+  simp only [Lengths.calcPMTSectionLength, calcPMTSectionLength, C14.generated_calcDescriptorsLength _ hp]
+  rw [foldl_add_mod_mem 65536 _ (fun es => 5 + calcDescriptorsLength es.elementaryStreamDescriptors) _
+    (by intro acc a ha; simp only [C14.generated_calcDescriptorsLength _ (he a ha)]; len_arith) _ (by init_lt)]
+  len_arith
 
 end C13
 
